@@ -18,6 +18,8 @@ Nested(w)       == w = "[[T!]]"
 \* scalar configured with a pydantic-native type only, "raw" unconfigured custom scalar, "input" input object
 \* positions: "var" top-level operation variable, "field" field of an input object passed as a variable,
 \*            "nested" field of an input object nested in another one;
+\*            "sub_var" / "sub_field": the same two for a SUBSCRIPTION method: the variables travel in the payload of the
+\*            graphql-transport-ws subscribe frame (_send_subscribe) instead of an HTTP body, through the same conversion;
 \*            "result" / "result_nested" / "result_fragment": the same machine read in the other direction (C07, result
 \*            side): the server returns the value, `wire` is what reaches user code, serLog logs the user's PARSE function
 \* states of the call for this argument: "omitted", "none", "val", "val_nullitem" (a null item in the list), "empty" ([]),
@@ -61,7 +63,9 @@ VARIABLES c,            \* the case
           delivered     \* what the resolver receives ("absent" = the server applies its own default)
 vars == <<c, stage, present, wire, serLog, delivered>>
 
-AsBuiltWhole == "toplevel_serialize_whole" \in Deviations /\ c.pos = "var" /\ c.kind = "ser"
+IsTopVar(p) == p \in {"var", "sub_var"}
+Transport(p) == IF p \in {"sub_var", "sub_field"} THEN "subscribe_frame" ELSE "http_body"
+AsBuiltWhole == "toplevel_serialize_whole" \in Deviations /\ IsTopVar(c.pos) /\ c.kind = "ser"
 Init == /\ c \in Cases /\ stage = "call" /\ present = TRUE /\ wire = <<"null">> /\ serLog = <<>> /\ delivered = <<"pending">>
 
 \* variables: Dict[str, object] = {"name": arg}   or   {"name": serialize(arg)}
